@@ -2,6 +2,7 @@ import Amgcl.Proofs.SolverCG
 import Amgcl.Proofs.SolverBiCGStab
 import Amgcl.Proofs.SolverRichardson
 import Amgcl.Model.SolverPreonly
+import Amgcl.Proofs.SolverGMRESExact
 import Mathlib.Algebra.Order.Field.Rat
 /-!
 # C05 — each Krylov method produces its defining iterates  (CG, BiCGStab, Richardson, preonly)
@@ -186,5 +187,60 @@ example : ∀ v z : Vec ℚ, v.size = A₀.nrows → spmv 1 A₀ (P₀ v) 0 z = 
     | 1, _ => simp [A₀, CRS.row, rowDot, e0, e1]; ring
 
 end nonvacuous
+
+/-! ## Second package: GMRES / FGMRES with an exact preconditioner
+
+With `A·(P v) = v` restarted GMRES (right preconditioning) and FGMRES make exactly ONE iteration, report residual `0`
+and return the exact solution — assuming the square root is exact on the single number `⟨r₀,r₀⟩` it is applied to
+(`hroot`; this is the instance of `hsqrt : ∀ x ≥ 0, sqrt x * sqrt x = x` that is needed, true at `ℝ` with
+`Real.sqrt`; with the rational `rsqrt` of the executable instances it holds when `⟨r₀,r₀⟩` is a perfect square, the
+harness' tag `exact_root`), the inner product is homogeneous (`hip`; `stdIp_smul`: the backend's inner product is),
+`‖0‖ = 0`, and `0 < eps` (with `eps = 0` the code keeps iterating on the zero residual until `maxiter`).
+Left-preconditioned GMRES needs `P·(A v) = v` and a linear `P` in addition and is covered by the harness oracle
+only (tag `exact_prec_one_step`). -/
+section second
+variable {K : Type} [Field K] [DecidableEq K] [LT K] [DecidableLT K]
+
+theorem gmres_exact_precond (prm : GMRES.Params K) (hside : prm.pside = .right) (ip : Vec K → Vec K → K)
+    (sqrt : K → K) (eps : K) (A : CRS K) (hA : A.WF) (P : Vec K → Vec K) (hP : ∀ v, (P v).size = A.ncols)
+    (hAP : ∀ v z, v.size = A.nrows → spmv 1 A (P v) 0 z = v)
+    (ws : GMRES.Work K) (f x0 : Vec K) (nf : K) (hp : prologueA prm.nsSearch ip sqrt eps f = .go nf)
+    (hip : ∀ (a : K) (u z z' : Vec K), ip (axpby a u 0 z) (axpby a u 0 z') = a * a * ip u u)
+    (hroot : sqrt (ip (residual f A x0) (residual f A x0)) * sqrt (ip (residual f A x0) (residual f A x0))
+      = ip (residual f A x0) (residual f A x0))
+    (hne : ip (residual f A x0) (residual f A x0) ≠ 0) (hmax : 1 ≤ prm.maxiter)
+    (hstart : ¬ nrmA ip sqrt (residual f A x0) < GMRES.epsTol prm nf)
+    (hz : nrmA ip sqrt (vclear A.nrows) = 0) (heps0 : ¬ GMRES.epsTol prm nf < 0) (heps : 0 < GMRES.epsTol prm nf) :
+    ∃ x w, GMRES.solve prm ip sqrt eps A P ws f x0 = .ok (1, 0, x, w) ∧ residual f A x = vclear A.nrows := by
+  have hy : GMRES.ExactHyp ip sqrt A P (residual f A x0) (GMRES.epsTol prm nf) :=
+    ⟨hA, hP, hAP, hip, hroot, hne, hz, hstart, heps0, heps⟩
+  obtain ⟨h1, h2, h3⟩ := GMRES.exact_final prm hside ip sqrt A P ws f x0 nf hmax hy
+  refine ⟨(GMRES.final prm ip sqrt A P ws f x0 nf).x, (GMRES.final prm ip sqrt A P ws f x0 nf).w, ?_, ?_⟩
+  · rw [GMRES.solve, Run.toExcept_ok, GMRES.run_go _ _ _ _ _ _ _ _ _ nf hp, h1, h2, zero_div]
+  · rw [h3]; exact residual_after_exact A hA P hP hAP f x0
+
+theorem fgmres_exact_precond (prm : FGMRES.Params K) (ip : Vec K → Vec K → K)
+    (sqrt : K → K) (eps : K) (A : CRS K) (hA : A.WF) (P : Vec K → Vec K) (hP : ∀ v, (P v).size = A.ncols)
+    (hAP : ∀ v z, v.size = A.nrows → spmv 1 A (P v) 0 z = v)
+    (ws : FGMRES.Work K) (f x0 : Vec K) (nf : K) (hp : prologueA prm.nsSearch ip sqrt eps f = .go nf)
+    (hip : ∀ (a : K) (u z z' : Vec K), ip (axpby a u 0 z) (axpby a u 0 z') = a * a * ip u u)
+    (hroot : sqrt (ip (residual f A x0) (residual f A x0)) * sqrt (ip (residual f A x0) (residual f A x0))
+      = ip (residual f A x0) (residual f A x0))
+    (hne : ip (residual f A x0) (residual f A x0) ≠ 0) (hmax : 1 ≤ prm.maxiter)
+    (hstart : ¬ nrmA ip sqrt (residual f A x0) < FGMRES.epsTol prm nf)
+    (hz : nrmA ip sqrt (vclear A.nrows) = 0) (heps0 : ¬ FGMRES.epsTol prm nf < 0)
+    (heps : 0 < FGMRES.epsTol prm nf) :
+    ∃ x w, FGMRES.solve prm ip sqrt eps A P ws f x0 = .ok (1, 0, x, w) ∧ residual f A x = vclear A.nrows := by
+  have hy : FGMRES.ExactHyp ip sqrt A P (residual f A x0) (FGMRES.epsTol prm nf) :=
+    ⟨hA, hP, hAP, hip, hroot, hne, hz, hstart, heps0, heps⟩
+  obtain ⟨h1, h2, h3⟩ := FGMRES.exact_final prm ip sqrt A P ws f x0 nf hmax hy
+  refine ⟨(FGMRES.final prm ip sqrt A P ws f x0 nf).x, (FGMRES.final prm ip sqrt A P ws f x0 nf).w, ?_, h3⟩
+  rw [FGMRES.solve, Run.toExcept_ok, FGMRES.run_go _ _ _ _ _ _ _ _ _ nf hp, h1, h2, zero_div]
+
+/-- the homogeneity hypothesis `hip` holds for the backend's inner product -/
+theorem std_inner_product_homogeneous (a : K) (u z z' : Vec K) :
+    stdIp (axpby a u 0 z) (axpby a u 0 z') = a * a * stdIp u u := stdIp_smul a u z z'
+
+end second
 
 end Amgcl.C05
